@@ -1,6 +1,7 @@
 package main
 
 import (
+	"runtime"
 	"context"
 	"fmt"
 	stderrors "errors"
@@ -105,6 +106,7 @@ func driveKvWaitPrompt(opt *Options) error {
 	if err := driveKvWaitWrites(tw); err != nil {
 		return err
 	}
+	driveKvWaitAroundExpiry(tw)
 	return driveKvWaitBrief(tw, opt.Seed)
 }
 
@@ -364,4 +366,65 @@ func driveKvWaitWrites(tw *TraceWriter) error {
 		}
 	}
 	return nil
+}
+
+
+// driveKvWaitAroundExpiry (in-memory backend, one processor): a waiter on an expiring record is woken by a WRITE that
+// lands within microseconds of the record's expiration (swept from 400 us before to 1.6 ms after it, so that whatever
+// timer the waiter had armed fires just then); immediately afterwards another waiter waits, with a 25 ms deadline, on
+// a record that lives for an hour and does not change: it must sit out its deadline ("deadline / none" lines) - whatever
+// the first waiter left behind.
+func driveKvWaitAroundExpiry(tw *TraceWriter) {
+	old := runtime.GOMAXPROCS(1)
+	defer runtime.GOMAXPROCS(old)
+	st := inmem.New()
+	ctx := context.Background()
+	hour := time.Now().Add(time.Hour)
+	live, err := st.Put(ctx, kvs.Record{Key: "live", Value: []byte("v"), ExpiresAt: &hour})
+	if err != nil {
+		return
+	}
+	for round := 0; round < 100; round++ {
+		off := time.Duration(-400+20*round) * time.Microsecond
+		expAt := time.Now().Add(8 * time.Millisecond)
+		k := "x" + strconv.Itoa(round)
+		rec, err := st.Put(ctx, kvs.Record{Key: k, Value: []byte("v1"), ExpiresAt: &expAt})
+		if err != nil {
+			return
+		}
+		w1 := make(chan struct{})
+		go func() {
+			defer close(w1)
+			c, cancel := context.WithTimeout(ctx, time.Second)
+			defer cancel()
+			callPanics(func() { st.WaitForVersionChange(c, k, rec.Version) })
+		}()
+		for time.Until(expAt.Add(off)) > 0 { // spin: a sleep would be far too coarse
+			runtime.Gosched()
+		}
+		st.Put(ctx, kvs.Record{Key: k, Value: []byte("v2")})
+		<-w1
+		const d = 25 * time.Millisecond
+		c, cancel := context.WithTimeout(ctx, d)
+		t0 := time.Now()
+		var werr error
+		callPanics(func() { werr = st.WaitForVersionChange(c, "live", live.Version) })
+		t1 := time.Now()
+		ctxDone := c.Err() != nil
+		cancel()
+		res := errClass(werr)
+		if stderrors.Is(werr, context.DeadlineExceeded) || stderrors.Is(werr, context.Canceled) {
+			res = "ctxerr"
+		}
+		late := t1.Sub(t0.Add(d)).Milliseconds()
+		stall := int64(0)
+		if late > 150 {
+			stall = late // the host stalled while nothing but a timer was awaited: not judged
+		}
+		tw.Emit(map[string]any{"e": "deadline", "backend": "inmem", "change": "none", "timeout_ms": d.Milliseconds(), "after": "a waiter woken at its record's expiry",
+			"late_ms": late, "ctxdone": ctxDone, "stall_ms": stall, "res": res})
+		if res != "ctxerr" {
+			break
+		}
+	}
 }
